@@ -570,6 +570,15 @@ example :
       [.readOut, .integrate [1, 2, 3, 4, 5, 6, 7, 8] (1/2) 3, .integrate [1, 1, 1, 1, 1, 1, 1, 1] 2 1,
        .readOut, .readOut]).2 = [[0, 0], [29, 41], [0, 0]] := by decide +kernel
 
+/-- one factor per axis: a 1×2 detector with factors (2, 3) — input 2×6, slowest axis first — over two integrations -/
+example :
+    images (run ({ dims := [1, 2], ss := [2, 3] } : Geom) ({} : St Rat)
+      [.integrate [1, 2, 3, 4, 5, 6, 7, 8, 9, 10, 11, 12] 1 1, .integrate [1, 1, 1, 1, 1, 1, 1, 1, 1, 1, 1, 1] (1/2) 2,
+       .readOut, .readOut]).2 = [[36, 54], [0, 0]] ∧
+    WellSized ({ dims := [1, 2], ss := [2, 3] } : Geom)
+      ([.integrate [1, 2, 3, 4, 5, 6, 7, 8, 9, 10, 11, 12] 1 1, .readOut] : List (Op Rat)) := by
+  constructor <;> decide +kernel
+
 /-- `allOff` is what the driver builds for `new noisy <s> <dims> 0 -`, and the flag is `true` on it -/
 example : (allOff (Geom.uniform [2] 1) : PSt Rat).flat = [1, 1] ∧
     (allOff (Geom.uniform [2] 1) : PSt Rat).dark = [0, 0] ∧
